@@ -16,10 +16,11 @@ BOUNDS = {
               "parts": "field, file, field+file, file+field with a repeated name", "boundaries": ["b", "xyz"]},
     "thorough": {"payload": "<= 4 bytes", "names": "<= 3 characters"},
 }
-STUBS = ["urllib.parse.quote / unquote on solver text: per-byte / scan models (the real functions are table lookups that fork once per table entry); validated natively on every path. urllib.parse.urlencode, quote_plus and parse_qsl are interpreted from the stdlib source"]
+STUBS = ["urllib.parse.quote / unquote on solver text: per-byte / scan models (the real functions are table lookups that fork once per table entry); validated natively on every path. urllib.parse.urlencode, quote_plus and parse_qsl are interpreted from the stdlib source",
+         "io.BytesIO inside test.stream_encode_multipart: harness stand-in MemIO (write/tell/seek/read/getvalue over solver bytes); os.fspath: identity on text"]
 ASSUMPTIONS = ["names exclude the double quote, backslash, CR, LF and '%22' (the header syntax cannot carry them), as the property states",
                "payloads do not hold '--' + boundary at the start of a line (no encoder can carry a delimiter look-alike); in the middle of a line it is allowed"]
-OUTSIDE = ["urlencoded keys/values longer than 2 (3) code points or above U+07FF; FormDataParser's stream reading of urlencoded bodies", "EnvironBuilder / test client plumbing (temp files, random boundary)", "code points above U+07FF in names",
+OUTSIDE = ["urlencoded keys/values longer than 2 (3) code points or above U+07FF; FormDataParser's stream reading of urlencoded bodies", "EnvironBuilder's temp-file spooling, random boundary and mimetypes guessing (the test client's encoder itself, test.encode_multipart, is covered with an in-memory stream stand-in)", "code points above U+07FF in names",
            "field values longer than 2 (3) code points through MultiPartParser"]
 
 SHAPES = {"field": ["field"], "file": ["file"], "field+file": ["field", "file"], "file+field-same-name": ["file", "field"], "two-fields": ["field", "field"]}
@@ -90,6 +91,124 @@ def body_roundtrip(I, X, shape="field", n=2, nn=1, boundary="b", chunk=0, name_s
     return ok, {"wire": wire, "parts": parts, "err": err}
 
 
+class MemIO:
+    """stands in for the io.BytesIO that test.stream_encode_multipart writes into (a C object):
+    write / tell / seek(0) / read / getvalue over solver bytes"""
+
+    def __init__(self, initial=b""):
+        self.data, self.pos = initial, 0
+
+    def write(self, b):
+        self.data = pconcat(self.data, b)
+        self.pos = plen(self.data)
+        return plen(b)
+
+    def tell(self):
+        return self.pos
+
+    def seek(self, pos, whence=0):
+        self.pos = pos
+        return pos
+
+    def read(self, n=-1):
+        total = plen(self.data)
+        k = total - self.pos if n is None or n < 0 else min(n, total - self.pos)
+        out = self.data[self.pos:self.pos + k]
+        self.pos += k
+        return out
+
+    def getvalue(self):
+        return self.data
+
+    def close(self):
+        pass
+
+
+CONTENT_TYPES = {"plain": "text/plain", "params": "text/csv; header=present", "case": "Application/X-Demo+JSON", "sym": None}
+
+
+def body_encode_parse(I, X, via="mapping", nn=1, n=1, ct="plain", buffer_size=64, order="field-first"):
+    """test.encode_multipart (the test client's encoder: stream_encode_multipart, _iter_data,
+    FileStorage / FileMultiDict.add_file) -> formparser.MultiPartParser: the text field and the
+    upload come back with the same names, value, file name (the empty one included), content
+    type as given (parameters and letter case kept) and byte-exact content"""
+    from collections.abc import Mapping
+
+    from harness.c01 import Sink, Stream
+    from werkzeug.datastructures import CombinedMultiDict, FileMultiDict, FileStorage, MultiDict
+    from werkzeug.formparser import MultiPartParser
+    from werkzeug.test import encode_multipart
+
+    def text(label, k, lo=0x20):
+        t = X.str(label, k, minlen=k, maxcp=0x7FF)
+        X.assume(pall_in(t, [(lo, 0x7FF)]))
+        X.assume(pnone_in(t, [0x22, 0x5C, 0x7F]))
+        return t
+
+    fname, uname = text("field_name", 1), text("upload_name", 1)
+    value = X.str("value", 1, minlen=0, maxcp=0x7FF)
+    X.assume(pnone_in(value, [13, 10, 0x2D]))
+    filename = text("filename", nn)
+    payload = X.bytes("payload", n, minlen=n)
+    X.assume(pnot(pstartswith(payload, b"--b")))
+    for lb in (b"\n", b"\r"):
+        X.assume(pnot(pcontains(payload, lb + b"--b")))
+    ctype = CONTENT_TYPES[ct]
+    if ctype is None:
+        # a solver character in the subtype and in a parameter value (token characters)
+        c1, c2 = X.str("ct_sub", 1, minlen=1, maxcp=0x7E), X.str("ct_param", 1, minlen=1, maxcp=0x7E)
+        for c in (c1, c2):
+            X.assume(pall_in(c, [(0x30, 0x39), (0x41, 0x5A), (0x61, 0x7A), (0x2D, 0x2E), (0x5F, 0x5F)]))
+        ctype = pconcat("text/x-", c1, "; k=", c2)
+
+    class PairMap(Mapping):
+        def __init__(self, pairs):
+            self.pairs = pairs
+
+        def __getitem__(self, k):
+            raise KeyError(k)
+
+        def __iter__(self):
+            return iter([k for k, _ in self.pairs])
+
+        def __len__(self):
+            return len(self.pairs)
+
+        def items(self):
+            return list(self.pairs)
+
+    reader = MemIO(payload)
+    if via == "mapping":
+        fs = I.call(FileStorage, (), {"stream": reader, "filename": filename, "name": uname, "content_type": ctype})
+        pairs = [(fname, value), (uname, fs)]
+        data = PairMap(pairs if order == "field-first" else pairs[::-1])
+    else:
+        # what EnvironBuilder hands over: CombinedMultiDict([form, files]) with files built by add_file
+        form = I.call(MultiDict, ([(fname, value)],))
+        files = I.call(FileMultiDict, ())
+        I.call(files.add_file, (uname, reader, filename, ctype))
+        data = I.call(CombinedMultiDict, ([form, files] if order == "field-first" else [files, form],))
+    boundary, body = I.call(encode_multipart, (data,), {"boundary": "b"})
+    sinks = []
+
+    def factory(total_content_length=None, filename=None, content_type=None, content_length=None):
+        sinks.append(Sink())
+        return sinks[-1]
+
+    parser = I.call(MultiPartParser, (), {"stream_factory": factory, "buffer_size": buffer_size})
+    try:
+        form2, files2 = I.call(parser.parse, (Stream(body), b"b", None))
+    except ValueError as e:
+        return False, {"body": body, "error": repr(e)}
+    fields = [(k, v) for k, v in I.call(form2.items, (), {"multi": True})]
+    ups = [(k, v.filename, I.getattr(v, "content_type"), v.stream.content()) for k, v in I.call(files2.items, (), {"multi": True})]
+    ok = len(fields) == 1 and len(ups) == 1
+    if ok:
+        ok = pand(peq(fields[0][0], fname), peq(fields[0][1], value), peq(ups[0][0], uname), ups[0][1] is not None and peq(ups[0][1], filename),
+                  ups[0][2] is not None and peq(ups[0][2], ctype), peq(ups[0][3], payload))
+    return ok, {"body": body, "fields": fields, "uploads": ups}
+
+
 def body_urlencoded(I, X, nk=1, nv=1, repeated=False, via="parse_qsl"):
     """urls._urlencode -> urllib.parse.parse_qsl (as Request.form / Request.args use it):
     keys and values come back unchanged, in order, incl. repeated keys and empty values"""
@@ -151,6 +270,15 @@ def make_stubs():
         return urllib.parse.unquote(string, encoding, errors)
 
     st[urllib.parse.unquote] = unquote_stub
+    import io
+
+    import os
+
+    from symex.seq import SSeq
+
+    st[io.BytesIO] = lambda I, *a: MemIO(*a)
+    # os.fspath (C) is the identity on str / bytes
+    st[os.fspath] = lambda I, p: p if isinstance(p, SSeq) else os.fspath(p)
     return st
 
 
@@ -186,6 +314,13 @@ def obligations(tier, seed):
             out.append({"name": f"urlencoded[k={nk},v={nv},repeated={rep},via={via}]", "body": "body_urlencoded",
                         "params": {"nk": nk, "nv": nv, "repeated": rep, "via": via},
                         "opts": {"budget_s": 900, "ctx": {"max_cp": 0x7FF}}, "witness": nk == 1 and nv == 1 and not rep})
+    # the test client's encoder -> MultiPartParser: file name (incl. the empty one), content type, content
+    for via in ("mapping", "combined"):
+        for nn, n, ct, order in ([(0, 1, "plain", "field-first"), (1, 1, "params", "field-first"), (1, 0, "case", "upload-first"), (1, 2, "sym", "field-first")] if quick else
+                                 [(a, b, c, d) for a in (0, 1, 2) for b in (0, 1, 3) for c in CONTENT_TYPES for d in ("field-first", "upload-first")]):
+            out.append({"name": f"encode_parse[{via},filename={nn},payload={n},ct={ct},{order}]", "body": "body_encode_parse",
+                        "params": {"via": via, "nn": nn, "n": n, "ct": ct, "order": order},
+                        "opts": {"budget_s": 900, "ctx": {"max_cp": 0x7FF, "loop_bound": 1000}}, "witness": via == "mapping" and nn == 1 and ct == "params"})
     # chunked decoding of the encoder's output with a realistic boundary
     for shape in ("field", "file"):
         for chunk in ([9, 16, 30] if quick else [5, 9, 12, 16, 23, 30, 41]):
